@@ -99,9 +99,14 @@ Fixpoint bus_pq_3ph (els : list elem) : Q * Q * Q :=
    pd2ppc_zero.py:486-492, from x0x_max/r0x0_max), y_sub = what is subtracted (gs_eg + j bs_eg: always the NEGATIVE
    sequence value, :424), i_lines = current leaving the bus into the branches, v = sequence voltage of the bus. *)
 Definition eg_seq_current_reported (y_shunt y_sub v i_lines : C) : C := Cadd i_lines (Cmul (Csub y_shunt y_sub) v).
-(* guard: zero- and negative-sequence admittance of the ext_grid coincide (x0x_max = 1 and r0x0_max = rx_max) *)
+(* zero sequence: after the repair "fix: runpp_3ph removes the zero sequence ext_grid admittance from the zero sequence
+   network" the zero sequence admittance itself is subtracted; before it the negative sequence one (y2) *)
+Definition eg_zero_seq_current (y0 v i_lines : C) : C := eg_seq_current_reported y0 y0 v i_lines.
+Definition eg_zero_seq_current_old (y0 y2 v i_lines : C) : C := eg_seq_current_reported y0 y2 v i_lines.
+(* guard under which the old rule was right: zero- and negative-sequence admittance of the ext_grid coincide *)
 Definition G11_eg (y0 y2 : C) : bool := qeqb (re y0) (re y2) && qeqb (im y0) (im y2).
-Definition run_eg_ratio (y0 y2 : C) : out := oc (Cdiv y2 y0).
+(* reported / true zero sequence current for a passive zero sequence network (i_lines = -y0*v, v = 1) *)
+Definition run_eg_ratio (y0 y2 : C) : out := oc (Cdiv (eg_zero_seq_current y0 C1 (Copp y0)) (Copp y0)).
 
 (* ---- run wrappers *)
 Definition ok3 (x : K3) : out := let '(a, b, c) := x in OL [ok a; ok b; ok c].
